@@ -136,7 +136,7 @@ SAMEDIM = [('m', 'm'), ('km', 'm'), ('m', 'km'), ('mm', 'in'), ('kg', 'g'), ('g'
            ('W', 'erg/s'), ('T', 'G'), ('m-1', 'Ka'), ('statC', 'Fr'), ('um2', 'ar'), ('C', 'A*s')]
 PRODUCTS = [('km', 'm-1'), ('kg', 'g'), ('J', 'erg'), ('m', 's'), ('m', 'm'), ('km', 'h'), ('N', 'm'), ('kg*m/s2', 'm2'), ('m*s', 'm'), ('km2', 'mm-2'),
             ('W', 's'), ('%', 'm'), ('%', '%'), ('rad', 'm'), ('deg', 'rad'), ('Hz', 's'), ('kHz', 'ms'), ('g/cm3', 'l'), ('C', 'V'), ('m1:2', 'm1:2'),
-            ('mol', '[N_A]'), ('eV', '[k_B]')]
+            ('mol', '[N_A]'), ('eV', '[k_B]'), ('km*%', 'm-1'), ('ppth*kHz', 's'), ('kJ*[pi]', 'J-1'), ('%*h', 'Hz'), ('rad*km', 'mm-1'), ('dam2*ppth', 'cm-2')]
 NUMBER_UNITS = [('m', False), ('km/h', False), ('%', True), ('ppth', True), ('kg*m2/s2', False), ('[alpha]', True)]
 MISMATCH = [('m', 's'), ('m', 'm2'), ('kg', 'N'), ('J', 'W'), ('m', 'rad'), ('Pa', 'N'), ('%', 'm'), ('Hz', 's'), ('m/s', 'm/s2'), ('C', 'A'), ('J', 'N'), ('m1:2', 'm')]
 POW_UNITS = ['m', 'km', 'm3', 'kg*m2/s2', 'cm-1']
